@@ -163,6 +163,10 @@ def run(ctx):
     gen = ctx.family("generic")
     gen.each_bin(per_bin)
     ctx.cov["generic_programs"] = len(gen.progs)
+    # the tables as a schema generator built in the release profile (no debug assertions) computes them
+    rel = ctx.family("release")
+    rel.each_bin(per_bin)
+    ctx.cov["release_profile_programs"] = len(rel.progs)
     # response types that are user types named like framework items (Empty, Response, Binary, ...)
     sh = ctx.family("shadow")
     sh.each_bin(per_bin)
